@@ -3,7 +3,7 @@
 
 #include <aws/common/priority_queue.h>
 
-#define NH 4
+#define NH 12
 static struct aws_priority_queue pq;
 static bool live, is_static;
 static void *static_heap;
